@@ -18,6 +18,7 @@ import (
 	"go.etcd.io/bbolt/zverif/apix"
 	"go.etcd.io/bbolt/zverif/par"
 	"go.etcd.io/bbolt/zverif/refmodel"
+	"go.etcd.io/bbolt/zverif/vsync"
 )
 
 // Seed is a start state: a program run from an empty database, then closed.
@@ -40,6 +41,8 @@ type Scope struct {
 	Boundary func(x *apix.Exec, kind string) *apix.Fail
 	// Setup is called on every fresh Exec before the program is replayed (may be nil).
 	Setup func(x *apix.Exec)
+	// Session: run every execution as the single logical thread of a controlled session (deadlock detection).
+	Session bool
 }
 
 // Track is the bookkeeping the explorer keeps along a program.
@@ -302,56 +305,107 @@ func Expand(job Job) Res {
 	scs := scopes(job.Scope, job.Tier)
 	sc := scs[job.Idx]
 	var res Res
-	x, err := Fresh(sc)
-	if err != nil {
-		return Res{Err: err.Error()}
-	}
-	t := &Track{}
-	if job.Mode == "run" {
-		f := replay(x, t, job.Prog)
-		if f != nil && f.Kind == "error" {
-			f = nil
+	// inSession runs f as the only logical thread of a controlled session when the scope asks for it, so that a
+	// lock that is never released shows up as a "deadlock" verdict instead of a hang.
+	inSession := func(f func()) (string, string) {
+		if !sc.Session {
+			f()
+			return "", ""
 		}
-		s := Succ{Fail: f, Notes: x.Notes}
-		Retire(x)
-		return Res{Succ: []Succ{s}}
+		s := vsync.NewSession(nil)
+		s.Run(f)
+		return s.Verdict, s.Detail
 	}
-	if f := replay(x, t, job.Prog); f != nil && f.Kind != "error" {
-		Retire(x)
-		return Res{Err: "replay of an already explored program failed (nondeterminism?): " + f.Error()}
+	if job.Mode == "run" {
+		var out Succ
+		v, d := inSession(func() {
+			x, err := Fresh(sc)
+			if err != nil {
+				res.Err = err.Error()
+				return
+			}
+			t := &Track{}
+			f := replay(x, t, job.Prog)
+			if f != nil && f.Kind == "error" {
+				f = nil
+			}
+			out = Succ{Fail: f, Notes: x.AllNotes()}
+			Retire(x)
+		})
+		if v != "" {
+			curPath = ""
+			out = Succ{Fail: &apix.Fail{Kind: v, At: -1, Msg: d}}
+		}
+		res.Succ = []Succ{out}
+		return res
 	}
 	left := sc.MaxOps - len(job.Prog)
-	ops := sc.Enabled(x, t, left)
-	for i, op := range ops {
-		if i > 0 {
+	var ops []apix.Op
+	v, d := inSession(func() {
+		x, err := Fresh(sc)
+		if err != nil {
+			res.Err = err.Error()
+			return
+		}
+		t := &Track{}
+		if f := replay(x, t, job.Prog); f != nil && f.Kind != "error" {
 			Retire(x)
-			x, err = Fresh(sc)
+			res.Err = "replay of an already explored program failed (nondeterminism?): " + f.Error()
+			return
+		}
+		ops = sc.Enabled(x, t, left)
+		Retire(x)
+	})
+	if v != "" {
+		curPath = ""
+		res.Err = "replay of an already explored program ended with verdict " + v + ": " + d
+	}
+	if res.Err != "" {
+		return res
+	}
+	for _, op := range ops {
+		op := op
+		var s Succ
+		var notes []string
+		v, d := inSession(func() {
+			x, err := Fresh(sc)
 			if err != nil {
-				return Res{Err: err.Error()}
+				res.Err = err.Error()
+				return
 			}
-			t = &Track{}
+			t := &Track{}
 			if f := replay(x, t, job.Prog); f != nil && f.Kind != "error" {
 				Retire(x)
-				return Res{Err: "replay diverged (nondeterminism?): " + f.Error()}
+				res.Err = "replay diverged (nondeterminism?): " + f.Error()
+				return
 			}
-		}
-		f := step(x, t, op)
-		s := Succ{Op: op, Notes: x.Notes}
-		if f != nil && f.Kind != "error" {
-			s.Fail = f
-			s.End = true
-		} else {
-			s.Key = keyOf(x, t)
-			if f != nil {
-				s.Obs = f.Msg
-			}
-			if left-1 <= 0 || x.Poisoned {
+			notes = x.AllNotes()
+			f := step(x, t, op)
+			notes = x.AllNotes()
+			s = Succ{Op: op, Notes: x.AllNotes()}
+			if f != nil && f.Kind != "error" {
+				s.Fail = f
 				s.End = true
+			} else {
+				s.Key = keyOf(x, t)
+				if f != nil {
+					s.Obs = f.Msg
+				}
+				if left-1 <= 0 || x.Poisoned {
+					s.End = true
+				}
 			}
+			Retire(x)
+		})
+		if v != "" {
+			curPath = ""
+			s = Succ{Op: op, Notes: notes, End: true, Fail: &apix.Fail{Kind: v, At: len(job.Prog), Op: op.String(), Msg: d}}
+		}
+		if res.Err != "" {
+			return res
 		}
 		res.Succ = append(res.Succ, s)
 	}
-	Retire(x)
 	return res
 }
 
